@@ -27,6 +27,9 @@ THEOREMS = [
     "NfcVerif.C12.isodep_response_exact",
     "NfcVerif.C12.isodep_error_kind",
     "NfcVerif.C12.isodep_block_bound",
+    "NfcVerif.C12.isodep_block_bound_derived",
+    "NfcVerif.C12.isodep_stale_after_error_reachable",
+    "NfcVerif.C12.isodep_stale_after_error_counterexample",
     "NfcVerif.C12.fsc_fwt_derivation",
 ]
 
@@ -243,8 +246,8 @@ def run(ck):
             cfg = Cfg(kind, 0, 4, 256, 256, 13, (0, 0, 0), 1, rlen)
             cmd = make_cmd(rng, clen, 0xC0 + si)
             legs0 = legs_of(cfg, [cmd])
-            k = 3 if ck.thorough and si < 6 else 2
-            kinds = KINDS if k == 2 else "lc"
+            k = 3 if ck.thorough else 2
+            kinds = KINDS if k == 2 or si < 6 else "lc"
             for script in scripts_exhaustive(legs0 + 3 * k, k, kinds):
                 one(cfg, script, [cmd], "exhaustive<=%d:%s" % (k, kind))
                 nex += 1
@@ -262,10 +265,8 @@ def run(ck):
         cfg = Cfg("AB"[wi % 2], 0, 4, 256, 256, 13, wtx, 1 + 7 * wi, rlen)
         cmd = make_cmd(rng, clen, 0xD0 + wi)
         legs0 = legs_of(cfg, [cmd])
-        k = 3 if ck.thorough and wi < 2 else 2
-        kinds = KINDS if k == 2 else "lc"
-        if not ck.thorough and wi >= 2:
-            kinds = "lc"
+        k = 3 if ck.thorough else 2
+        kinds = KINDS if wi < 2 else "lc"
         for script in scripts_exhaustive(legs0 + 3 * k, k, kinds):
             one(cfg, script, [cmd], "exhaustive-wtx<=%d" % k)
             nex += 1
@@ -315,7 +316,7 @@ def run(ck):
     one(Cfg("A", 8, 4, 256, 256, 253, (1, 0, 0), 2, 4), "dddc", [b"\x00\xb0\x00\x00\x04"], "witness")
     one(Cfg("B", 2, 4, 256, 256, 8, (0, 0, 1), 1, 14), "", [b"\x00\xb0\x00\x00\x0e"], "witness")
     # stale response after a failed exchange (open finding): response lost beyond the budget, next I-block lost once
-    one(Cfg("A", 8, 11, 256, 256, 253, (0, 0, 0), 1, 4), "dldlddl", [b"\x00\xb0\x00\x00\x04", b"\x00\xb0\x00\x04\x04"], "witness")
+    one(Cfg("A", 8, 11, 256, 256, 253, (0, 0, 0), 1, 4), "dldlldd", [b"\x00\xb0\x00\x00\x04", b"\x00\xb0\x00\x04\x04"], "witness")
 
     # ------------------------------------------------------------------ send_apdu (APDU encoding and status word)
     apdu_reqs = []
